@@ -346,13 +346,49 @@ static std::string opXAttr(const vh::Case& c) {
 		.num("ai", x.ai).str("as", vh::hex(x.as)).boolean("ab", x.ab).str("af", hb).num("au8", x.au8).num("ai16", x.ai16).num("au32", x.au32).str("af32", hb32).str("body", vh::hex(x.body)).done();
 }
 
+// ---- CSV tables (C09).  op=csv mode=save|load sep=comma|semicolon|tab|space|pipe enc=.. bom=0|1 sink/src=mem|sstream|slow cols=<hex,...> rows=<hex,..;hex,..>  ('-' = empty cell)
+static std::vector<std::string> splitBy(const std::string& s, char d) { std::vector<std::string> out; size_t q = 0; if (s.empty()) return out; while (q <= s.size()) { size_t c = s.find(d, q); if (c == std::string::npos) c = s.size(); out.push_back(s.substr(q, c - q)); q = c + 1; } return out; }
+static std::string opCsv(const vh::Case& c) {
+	using Rows = std::vector<std::map<std::string, std::string>>;
+	SerializationOptions opt;
+	std::string sep = c.get("sep", "comma");
+	opt.valuesSeparator = sep == "semicolon" ? ';' : sep == "tab" ? '\t' : sep == "space" ? ' ' : sep == "pipe" ? '|' : sep == "bad" ? '#' : ',';
+	std::string enc = c.get("enc", "utf8");
+	namespace U = BitSerializer::Convert::Utf;
+	opt.streamOptions.encoding = enc == "utf16le" ? U::UtfType::Utf16le : enc == "utf16be" ? U::UtfType::Utf16be : enc == "utf32le" ? U::UtfType::Utf32le : enc == "utf32be" ? U::UtfType::Utf32be : U::UtfType::Utf8;
+	opt.streamOptions.writeBom = c.geti("bom", 0) != 0;
+	Rows rows;
+	std::string out = "ok", exc, code, what, bytes;
+	try {
+		if (c.get("mode") == "save") {
+			auto cols = splitBy(c.get("cols"), ',');
+			for (auto& r : splitBy(c.get("rows"), ';')) {
+				auto cells = splitBy(r, ',');
+				std::map<std::string, std::string> m;
+				for (size_t i = 0; i < cols.size() && i < cells.size(); ++i) m[vh::unhex(cols[i])] = cells[i] == "-" ? std::string() : vh::unhex(cells[i]);
+				rows.push_back(std::move(m));
+			}
+			if (c.get("sink", "mem") == "mem") SaveObject<Csv::CsvArchive>(rows, bytes, opt);
+			else { std::ostringstream os; SaveObject<Csv::CsvArchive>(rows, os, opt); bytes = os.str(); }
+		} else {
+			std::string doc = c.bytes("doc"), src = c.get("src", "mem");
+			if (src == "mem") LoadObject<Csv::CsvArchive>(rows, doc, opt);
+			else if (src == "sstream") { std::istringstream is(doc); LoadObject<Csv::CsvArchive>(rows, is, opt); }
+			else { vh::SlowBuf sb(doc, size_t(c.geti("step", 7))); std::istream is(&sb); LoadObject<Csv::CsvArchive>(rows, is, opt); }
+		}
+	}
+	catch (const SerializationException& ex) { out = "exc"; exc = vh::demangle(typeid(ex).name()); code = Convert::ToString(ex.GetErrorCode()); what = ex.what(); }
+	catch (const std::exception& ex) { out = "exc"; exc = vh::demangle(typeid(ex).name()); code = "std"; what = ex.what(); }
+	return vh::JObj().str("id", c.get("id")).str("out", out).str("exc", exc).str("code", code).str("what", what.substr(0, 200)).str("bytes", vh::hex(bytes)).raw("rows", mz::desc(rows, kCtx)).done();
+}
+
 int main() {
 	std::string line;
 	while (std::getline(std::cin, line)) {
 		if (line.empty()) continue;
 		auto c = vh::Case::parse(line);
 		std::string out;
-		try { out = c.get("op") == "mapmode" ? opMapMode(c) : c.get("op") == "xattr" ? opXAttr(c) : opRun(c); }
+		try { out = c.get("op") == "mapmode" ? opMapMode(c) : c.get("op") == "xattr" ? opXAttr(c) : c.get("op") == "csv" ? opCsv(c) : opRun(c); }
 		catch (const std::exception& ex) { out = vh::JObj().str("id", c.get("id")).str("error", std::string("driver exception: ") + ex.what()).done(); }
 		std::cout << out << "\n" << std::flush;
 	}
